@@ -22,6 +22,12 @@
 (*           exp  = tick at which its reservation lapses                   *)
 (*   poolSpent / poolMade (DESIGN) are the derived sets PoolSpent/PoolMade *)
 (*   now     current tick;  nextId / nextTx  fresh-id counters             *)
+(*   lag     number of blocks the chain manager has accepted that the      *)
+(*           wallet's store has not been fed yet (owned / m are the STORE's *)
+(*           view, which is what selection works on); a descriptor's bl is  *)
+(*           how far behind the manager's tip the returned basis is: it     *)
+(*           must be the wallet's tip (bl = lag), the index the selected    *)
+(*           elements' proofs are valid for                                 *)
 (*   act, reply  label and result of the last action (hidden by VIEW)      *)
 (*                                                                         *)
 (* The specification is PERMISSIVE about which eligible outputs a request  *)
@@ -36,6 +42,8 @@
 (* in the self-test cfgs, where TLC must report the violated invariant):   *)
 (*   DevSpendableIgnoresV2  SpendableOutputs scans only v1 pool spends     *)
 (*   DevDefragReselect      defrag re-adds an already selected output      *)
+(*   DevBalanceUsesManagerHeight  Balance() judges maturity by the chain    *)
+(*                          manager's height, selection by the store's tip *)
 (*   DevRedistLocksGathered a multi-batch Redistribute also reserves the   *)
 (*                          outputs gathered for a batch it then dropped   *)
 (***************************************************************************)
@@ -44,15 +52,15 @@ EXTENDS Integers, FiniteSets, FiniteSetsExt, TLC
 CONSTANTS
     Delay,                  \* maturity delay of a miner payout, in blocks
     Batch,                  \* redistributeBatchSize (wallet.go:24)
-    DevSpendableIgnoresV2, DevDefragReselect, DevRedistLocksGathered,
+    DevSpendableIgnoresV2, DevDefragReselect, DevRedistLocksGathered, DevBalanceUsesManagerHeight,
     \* ---- enumeration sets / bounds used by Next (model checking only)
     Cfgs, InitWallets,      \* option records; initial wallets (id -> [v, m])
-    Amounts, RedistNs, RedistAmts, SplitNs, SplitMins, SplitFee, Rewards,
+    Amounts, RedistNs, RedistAmts, SplitNs, SplitMins, SplitFee, Rewards, Lags,
     MaxId, MaxTx, MaxNow
 
-VARIABLES cfg, owned, locked, txs, now, nextId, nextTx, act, reply
-vars  == <<cfg, owned, locked, txs, now, nextId, nextTx, act, reply>>
-svars == <<cfg, owned, locked, txs, now, nextId, nextTx>>
+VARIABLES cfg, owned, locked, txs, now, nextId, nextTx, lag, act, reply
+vars  == <<cfg, owned, locked, txs, now, nextId, nextTx, lag, act, reply>>
+svars == <<cfg, owned, locked, txs, now, nextId, nextTx, lag>>
 view  == svars
 
 -----------------------------------------------------------------------------
@@ -110,8 +118,9 @@ AllocateX(D, st, extra) ==
     LET tids == {d.tid : d \in D}
         mades == UNION {d.made : d \in D}
         D2tx(d) == [ver |-> d.ver, st |-> st, ins |-> d.ins, inv |-> SumV(d.ins), out |-> d.out,
-                    fee |-> d.fee, made |-> d.made, exp |-> now + cfg.rt]
+                    fee |-> d.fee, made |-> d.made, exp |-> now + cfg.rt, bl |-> d.bl]
     IN /\ Cardinality(tids) = Cardinality(D)
+       /\ \A d \in D : d.bl = lag                                  \* the basis handed back is the WALLET's tip
        /\ \A d \in D : d.tid >= 1 /\ d.tid \notin TxIds /\ d.fee >= 0 /\ d.out >= 0 /\ d.ins # {}
        /\ FreshMade(mades)
        /\ \A d1, d2 \in D : d1 # d2 => d1.ins \cap d2.ins = {} /\ Ids(d1.made) \cap Ids(d2.made) = {}
@@ -124,7 +133,7 @@ AllocateX(D, st, extra) ==
        /\ locked' = Lock(UNION {d.ins : d \in D} \cup extra)   \* extra # {} only under a named deviation
        /\ nextId' = BumpId(mades)
        /\ nextTx' = MaxOf({nextTx, 1 + MaxOf(tids)})
-       /\ UNCHANGED <<cfg, owned, now>>
+       /\ UNCHANGED <<lag, cfg, owned, now>>
 
 Allocate(D, st) == AllocateX(D, st, {})
 
@@ -138,6 +147,7 @@ InitWith(c, w) ==
     /\ now = 0
     /\ nextId = IF DOMAIN w = {} THEN 1 ELSE 1 + MaxOf(DOMAIN w)
     /\ nextTx = 1
+    /\ lag = 0
     /\ act = [op |-> "Init"]
     /\ reply = NoReply
 
@@ -295,7 +305,7 @@ Release(t) ==
     /\ txs' = Restrict(txs, TxIds \ {t})
     /\ act' = [op |-> "Release", t |-> t]
     /\ reply' = NoReply
-    /\ UNCHANGED <<cfg, owned, now, nextId, nextTx>>
+    /\ UNCHANGED <<lag, cfg, owned, now, nextId, nextTx>>
 
 \* concurrent traces: the call is an interval [RelBegin, RelEnd]
 RelBegin(t) ==
@@ -303,7 +313,7 @@ RelBegin(t) ==
     /\ txs' = [txs EXCEPT ![t].st = "rlsing"]
     /\ act' = [op |-> "RelBegin", t |-> t]
     /\ reply' = NoReply
-    /\ UNCHANGED <<cfg, owned, locked, now, nextId, nextTx>>
+    /\ UNCHANGED <<lag, cfg, owned, locked, now, nextId, nextTx>>
 
 RelEnd(t) ==
     /\ t \in TxIds /\ txs[t].st = "rlsing"
@@ -311,7 +321,7 @@ RelEnd(t) ==
     /\ txs' = Restrict(txs, TxIds \ {t})
     /\ act' = [op |-> "RelEnd", t |-> t]
     /\ reply' = NoReply
-    /\ UNCHANGED <<cfg, owned, now, nextId, nextTx>>
+    /\ UNCHANGED <<lag, cfg, owned, now, nextId, nextTx>>
 
 \* one tick of the reservation clock: reservations whose period is over end
 Tick ==
@@ -319,7 +329,7 @@ Tick ==
     /\ locked' = Prune(locked, now + 1)
     /\ act' = [op |-> "Tick"]
     /\ reply' = NoReply
-    /\ UNCHANGED <<cfg, owned, txs, nextId, nextTx>>
+    /\ UNCHANGED <<lag, cfg, owned, txs, nextId, nextTx>>
 
 -----------------------------------------------------------------------------
 (* Broadcast: the signed transaction is submitted to the pool (AddPoolTransactions with its
@@ -342,7 +352,7 @@ BcastAcc(t) ==
     /\ txs' = [txs EXCEPT ![t].st = "pool"]
     /\ act' = [op |-> "Bcast", t |-> t]
     /\ reply' = [r |-> "acc", d |-> {}, dup |-> 0]
-    /\ UNCHANGED <<cfg, owned, locked, now, nextId, nextTx>>
+    /\ UNCHANGED <<lag, cfg, owned, locked, now, nextId, nextTx>>
 
 BcastRej(t) ==
     /\ CanBroadcast(t)
@@ -364,6 +374,7 @@ Age(o) == [v |-> o.v, m |-> IF o.m > 0 THEN o.m - 1 ELSE 0]
 DanglingV2 == \E t, u \in TxIds : /\ txs[t].ver = 2 /\ txs[t].st # "pool" /\ txs[u].st # "pool"
                                    /\ txs[t].ins \cap Ids(txs[u].made) # {}
 Mine ==
+    /\ lag = 0
     /\ ~DanglingV2
     /\ LET keep == DOMAIN owned \ PoolSpent
            new == PoolMade
@@ -374,7 +385,7 @@ Mine ==
     /\ txs' = Restrict(txs, TxIds \ PoolTx)
     /\ act' = [op |-> "Mine"]
     /\ reply' = NoReply
-    /\ UNCHANGED <<cfg, now, nextId, nextTx>>
+    /\ UNCHANGED <<lag, cfg, now, nextId, nextTx>>
 
 \* an empty block paying x to the wallet: a new immature output; the pool is untouched.
 \* (Such a block is only mined while no v2 transaction -- pooled or still with its caller --
@@ -383,33 +394,55 @@ Mine ==
 \* refuses to rebase it.  Pool / rebasing policy, outside C07.)
 NoEphemeralV2 == \A t \in TxIds : txs[t].ver = 2 => txs[t].ins \subseteq DOMAIN owned
 Reward(x, rid) ==
-    /\ x > 0 /\ rid >= nextId
+    /\ x > 0 /\ rid >= nextId /\ lag = 0
     /\ NoEphemeralV2
     /\ owned' = [i \in DOMAIN owned \cup {rid} |-> IF i = rid THEN [v |-> x, m |-> Delay] ELSE Age(owned[i])]
     /\ nextId' = rid + 1
     /\ act' = [op |-> "Reward", v |-> x]
     /\ reply' = NoReply
-    /\ UNCHANGED <<cfg, locked, txs, now, nextTx>>
+    /\ UNCHANGED <<lag, cfg, locked, txs, now, nextTx>>
+
+\* The chain manager accepts k blocks (empty as far as the wallet is concerned; possibly after
+\* abandoning blocks the store had indexed: a reorg) that the wallet's store is not fed yet.
+\* Every call keeps working on the store's view; what it returns must be usable AS RETURNED:
+\* the basis is the store's tip, and the pool accepts the signed transaction with that basis.
+LagBegin(k) ==
+    /\ k > 0 /\ lag = 0 /\ NoEphemeralV2
+    /\ lag' = k
+    /\ act' = [op |-> "Lag", k |-> k]
+    /\ reply' = NoReply
+    /\ UNCHANGED <<cfg, owned, locked, txs, now, nextId, nextTx>>
+
+\* the subscriber catches up: the store sees the k blocks, immature outputs age by k
+CatchUp ==
+    /\ lag > 0
+    /\ owned' = [i \in DOMAIN owned |-> [v |-> owned[i].v, m |-> IF owned[i].m > lag THEN owned[i].m - lag ELSE 0]]
+    /\ lag' = 0
+    /\ act' = [op |-> "CatchUp"]
+    /\ reply' = NoReply
+    /\ UNCHANGED <<cfg, locked, txs, now, nextId, nextTx>>
 
 \* process restart: reservations live in memory only; the pool is not persisted but the
 \* wallet re-adds the v2 sets it broadcast (wallet.go:1107-1121); v1 pool transactions are
 \* simply gone (their creators may submit them again)
 Restart ==
-    /\ Rlsing = {}
+    /\ Rlsing = {} /\ lag = 0
     /\ locked' = <<>>
     /\ txs' = [t \in TxIds |->
                  IF txs[t].st = "pool" /\ txs[t].ver = 2 THEN txs[t]
                  ELSE [txs[t] EXCEPT !.st = "out", !.exp = 0]]
     /\ act' = [op |-> "Restart"]
     /\ reply' = NoReply
-    /\ UNCHANGED <<cfg, owned, now, nextId, nextTx>>
+    /\ UNCHANGED <<lag, cfg, owned, now, nextId, nextTx>>
 
 -----------------------------------------------------------------------------
 (* The three views of "what is spendable" (wallet.go:165-231, 252-279, 281-330) *)
 
-BalSpendable   == SumV({i \in DOMAIN owned : owned[i].m = 0 /\ ~IsLocked(i) /\ i \notin PoolSpent})
-BalConfirmed   == SumV({i \in DOMAIN owned : owned[i].m = 0})
-BalImmature    == SumV({i \in DOMAIN owned : owned[i].m > 0})
+\* maturity as Balance() sees it: like selection, by the store's tip (DEVIATION: by the manager's)
+BalMature(i)   == IF DevBalanceUsesManagerHeight THEN owned[i].m <= lag ELSE owned[i].m = 0
+BalSpendable   == SumV({i \in DOMAIN owned : BalMature(i) /\ ~IsLocked(i) /\ i \notin PoolSpent})
+BalConfirmed   == SumV({i \in DOMAIN owned : BalMature(i)})
+BalImmature    == SumV({i \in DOMAIN owned : ~BalMature(i)})
 BalUnconfirmed == SumM(PoolMade)
 ListSpendable  == {i \in DOMAIN owned : /\ owned[i].m = 0 /\ ~IsLocked(i)
                                         /\ i \notin PoolSpentBy(IF DevSpendableIgnoresV2 THEN {1} ELSE {1, 2})}
@@ -434,15 +467,15 @@ NextFund ==
         \/ FundFail(ver, amt, unc)
         \/ \E sel \in (SUBSET May(unc)) \ {{}} :
               /\ SumV(sel) >= amt
-              /\ FundOK(ver, amt, unc, [tid |-> nextTx, ver |-> ver, ins |-> sel, out |-> amt, fee |-> 0,
+              /\ FundOK(ver, amt, unc, [tid |-> nextTx, ver |-> ver, ins |-> sel, out |-> amt, fee |-> 0, bl |-> lag,
                                         made |-> ChangeOf(SumV(sel) - amt, nextId)])
         \/ DevDefragReselect /\ \E sel \in (SUBSET May(unc)) \ {{}} : \E x \in sel :
               /\ SumV(sel) + Val(x) >= amt
-              /\ FundDup(ver, amt, unc, [tid |-> nextTx, ver |-> ver, ins |-> sel, out |-> amt, fee |-> 0,
+              /\ FundDup(ver, amt, unc, [tid |-> nextTx, ver |-> ver, ins |-> sel, out |-> amt, fee |-> 0, bl |-> lag,
                                          made |-> ChangeOf(SumV(sel) + Val(x) - amt, nextId)], x)
 
 RedistDesc(tid, sel, k, amt, id) ==
-    [tid |-> tid, ver |-> 2, ins |-> sel, out |-> 0, fee |-> 0,
+    [tid |-> tid, ver |-> 2, ins |-> sel, out |-> 0, fee |-> 0, bl |-> lag,
      made |-> {[id |-> id + j - 1, v |-> amt] : j \in 1..k} \cup ChangeOf(SumV(sel) - k * amt, id + k)]
 NewIds(sel, k, amt) == k + (IF SumV(sel) > k * amt THEN 1 ELSE 0)
 
@@ -474,7 +507,7 @@ NextSplit ==
               LET v == Val(i) - SplitFee
                   per == v \div r
               IN /\ v > 0 /\ per >= 1
-                 /\ SplitOK(n, mn, [tid |-> nextTx, ver |-> 2, ins |-> {i}, out |-> 0, fee |-> SplitFee,
+                 /\ SplitOK(n, mn, [tid |-> nextTx, ver |-> 2, ins |-> {i}, out |-> 0, fee |-> SplitFee, bl |-> lag,
                                     made |-> {[id |-> nextId + j - 1, v |-> per] : j \in 1..(r - 1)}
                                              \cup {[id |-> nextId + r - 1, v |-> v - per * (r - 1)]}])
 
@@ -487,6 +520,8 @@ Next ==
     \/ Mine
     \/ \E x \in Rewards : Reward(x, nextId)
     \/ Restart
+    \/ \E k \in Lags : LagBegin(k)
+    \/ CatchUp
 
 Spec == Init /\ [][Next]_vars
 
@@ -497,13 +532,13 @@ Bound == nextId <= MaxId + 1 /\ nextTx <= MaxTx + 1 /\ now <= MaxNow
 (* Invariants and action properties (C07) *)
 
 TxRec == [ver : {1, 2}, st : {"out", "rlsing", "pool"}, ins : SUBSET Nat, inv : Nat, out : Nat,
-          fee : Nat, made : SUBSET [id : Nat, v : Nat], exp : Nat]
+          fee : Nat, made : SUBSET [id : Nat, v : Nat], exp : Nat, bl : Nat]
 TypeOK ==
     /\ cfg \in [dt : Nat, mi : Nat, md : Nat, rt : Nat]
     /\ DOMAIN owned \subseteq Nat /\ \A i \in DOMAIN owned : owned[i] \in [v : Nat, m : 0..Delay]
     /\ DOMAIN locked \subseteq Nat /\ \A i \in DOMAIN locked : locked[i] \in Nat
     /\ DOMAIN txs \subseteq Nat /\ \A t \in TxIds : txs[t] \in TxRec
-    /\ now \in Nat /\ nextId \in Nat /\ nextTx \in Nat
+    /\ now \in Nat /\ nextId \in Nat /\ nextTx \in Nat /\ lag \in Nat
 
 \* no two un-released, un-lapsed funded transactions share an input
 Disjoint ==
@@ -554,5 +589,15 @@ ReservationEnds ==
             /\ act'.t \notin DOMAIN txs'
        /\ act'.op = "Tick" => LockedNow' = {i \in LockedNow : locked[i] > now + 1}
        /\ act'.op = "Restart" => LockedNow' = {}
-       /\ act'.op \in {"Bcast", "RelBegin", "Reward", "Obs"} => LockedNow' = LockedNow]_vars
+       /\ act'.op \in {"Bcast", "RelBegin", "Reward", "Obs", "Lag", "CatchUp"} => LockedNow' = LockedNow]_vars
+
+\* the basis a request hands back is the wallet's tip -- the index its inputs' proofs are valid
+\* for -- also while the store lags the chain manager
+BasisIsWalletTip ==
+    [][reply'.r = "ok" /\ act'.op \in {"Fund", "Redist", "Split"} => \A d \in reply'.d : d.bl = lag]_vars
+
+\* ... and with that basis the pool accepts the signed transaction as long as every input still
+\* exists and is unspent (and has no unconfirmed parent of the other version), lag or no lag
+PoolAcceptsAtBasis ==
+    [][act'.op = "Bcast" /\ Avail(act'.t) /\ ~CrossVer(act'.t) => reply'.r = "acc"]_vars
 =============================================================================
